@@ -182,7 +182,9 @@ MUTANTS["C17"] = [
     M("mkdir_exist_ok_path_api", HW, "        try:\n            os.makedirs(cache_dir, exist_ok=True)\n        except OSError:\n            return\n", "        try:\n            cache_dir.mkdir(parents=True, exist_ok=True)\n        except PermissionError:\n            return\n", "SILENT", "exist_ok=True tolerates the racing creator"),
     M("mkdir_fileexists_handler", HW, "        try:\n            os.makedirs(cache_dir, exist_ok=True)\n        except OSError:\n            return\n", "        try:\n            os.makedirs(cache_dir)\n        except FileExistsError:\n            pass\n        except OSError:\n            return\n", "SILENT", "FileExistsError handled"),
     M("tolerant_read_only", HW, _ATOMIC[0], _ATOMIC[1], "SILENT", "tolerant read alone satisfies the rule"),
-    M("atomic_publish_only", HW, _TOLERANT[0], _TOLERANT[1], "SILENT", "atomic publish alone satisfies the rule"),
+    M("atomic_publish_only", HW, _TOLERANT[0], _TOLERANT[1], "R6", "atomic publish without fsync does not survive a machine crash (0-byte file)"),
+    M("handler_narrowed_without_eoferror", HW, "        except Exception:\n            # an interrupted or concurrent write", "        except (OSError, pickle.PickleError, AttributeError, ImportError, IndexError):\n            # an interrupted or concurrent write", "R6", "round 5: EOFError (0 bytes, header only, frame boundary) escapes"),
+    M("handler_explicit_with_eoferror_is_fine", HW, "        except Exception:\n            # an interrupted or concurrent write", "        except (OSError, pickle.UnpicklingError, EOFError, AttributeError, ImportError, IndexError, ValueError):\n            # an interrupted or concurrent write", "SILENT", "covers what an incomplete pickle raises"),
     M("tmp_name_not_unique", HW, [_TOLERANT[0], 'cachefile.with_name("{}.{}.tmp.pickle".format(cachefile.stem, os.getpid()))'],
       [_TOLERANT[1], 'cachefile.with_name("{}.tmp.pickle".format(cachefile.stem))'], "R6"),
     M("handler_reraises", HW, [_ATOMIC[0], "            # an interrupted or concurrent write may leave an incomplete file: rebuild instead\n            return None\n"],
@@ -924,4 +926,33 @@ MUTANTS["C02"] += [
 MUTANTS["C06"] += [
     M("revert_written_operand_wins", ISA, '                    if o_reg_name not in reg_operand_names or any(\n                        o is d\n                        for d in chain(\n                            instruction_form.semantic_operands["destination"],\n                            instruction_form.semantic_operands["src_dst"],\n                        )\n                    ):\n                        reg_operand_names[o_reg_name] = operand_name\n', "                    reg_operand_names[o_reg_name] = operand_name\n", "R7", "revert of fix b0ca2cd"),
     M("written_operand_wins_membership_is_fine", ISA, "                        o is d\n                        for d in chain(", "                        o in (d,)\n                        for d in chain(", "SILENT", "membership instead of identity"),
+]
+
+MUTANTS["C15"] += [
+    M("report_counts_latency_of_timed_forms_only", DBI, '    """Get sanity summary report."""\n    s = ""\n', '    """Get sanity summary report."""\n    s = ""\n    m_l = [form for form in m_l if form["throughput"] is not None]\n', "D2", "round 5: the list is filtered between collection and count"),
+    M("report_drops_first_form", DBI, '    """Get sanity summary report."""\n    s = ""\n', '    """Get sanity summary report."""\n    s = ""\n    m_pp = m_pp[1:]\n', "D2"),
+    M("report_sorts_lists_is_fine", DBI, '    """Get sanity summary report."""\n    s = ""\n', '    """Get sanity summary report."""\n    s = ""\n    m_tp = sorted(m_tp, key=_get_full_instruction_name)\n', "SILENT", "re-ordering does not change a count"),
+]
+MUTANTS["C05"] += [
+    M("lcd_cell_by_truthiness", FE, "        if dep_lat is not None:\n", "        if dep_lat:\n", "R7", "round 5: a member with latency 0.0 is not marked"),
+    M("lcd_cell_none_test_inverted_is_fine", FE, "        if dep_lat is not None:\n            lat_lcd = float(dep_lat)\n", "        if dep_lat is None:\n            pass\n        else:\n            lat_lcd = float(dep_lat)\n", "SILENT", "same presence test"),
+]
+MUTANTS["C13"] += [
+    M("lcd_cell_by_truthiness", FE, "        if dep_lat is not None:\n", "        if dep_lat:\n", "R1", "round 5"),
+]
+MUTANTS["C09"] += [
+    M("label_attempt_prefiltered_on_raw_first_char", PX, "        # 2. Parse label\n        if result is None:\n", "        # 2. Parse label\n        if result is None and line[:1] not in (\" \", \"\\t\"):\n", "R3", "round 5: indented labels never reach the label grammar"),
+]
+
+MUTANTS["C20"] += [
+    M("rejected_tp_line_drops_new_form", DBI, '                    + " and was not added. Please inspect your benchmark."\n                )\n        elif "LT" in instruction:', '                    + " and was not added. Please inspect your benchmark."\n                )\n                continue\n        elif "LT" in instruction:', "R5", "round 5: a form whose only line is rejected never reaches the dict"),
+]
+
+MUTANTS["C16"] += [
+    M("flag_subset_test_is_fine", FE, '[instr.flags for instr in kernel if INSTR_FLAGS.TP_UNKWN in instr.flags]', "[instr.flags for instr in kernel if {INSTR_FLAGS.TP_UNKWN}.issubset(instr.flags)]", "SILENT", "issubset does not depend on set order"),
+]
+MUTANTS["C13"] += [
+    M("count_by_subset_of_one_flag_is_fine", FE, '[instr.flags for instr in kernel if INSTR_FLAGS.TP_UNKWN in instr.flags]', "[instr.flags for instr in kernel if {INSTR_FLAGS.TP_UNKWN}.issubset(instr.flags)]", "SILENT", "same predicate"),
+    M("count_needs_both_flags", FE, '[instr.flags for instr in kernel if INSTR_FLAGS.TP_UNKWN in instr.flags]', "[instr.flags for instr in kernel if {INSTR_FLAGS.TP_UNKWN, INSTR_FLAGS.LT_UNKWN}.issubset(instr.flags)]", "R3", "round 5: lines with TP_UNKWN only are marked X but not counted"),
+    M("dict_warning_needs_latency_flag", FE, "        if INSTR_FLAGS.TP_UNKWN in [flag for instr in kernel for flag in instr.flags]:\n            warnings.append(\"UnknownInstrWarning\")", "        if any(INSTR_FLAGS.TP_UNKWN in instr.flags and INSTR_FLAGS.LT_UNKWN in instr.flags for instr in kernel):\n            warnings.append(\"UnknownInstrWarning\")", "R3"),
 ]
